@@ -56,7 +56,13 @@ class Multicast:
         entry.endpoint = t.uint8_t(1)
         entry.multicastId = t.EmberMulticastId(group_id)
         entry.networkIndex = t.uint8_t(0)
-        status = await self._ezsp.setMulticastTableEntry(idx, entry)
+        try:
+            status = await self._ezsp.setMulticastTableEntry(idx, entry)
+        except BaseException:
+            # The table write did not complete (e.g. command timeout): the index is still free
+            self._available.add(idx)
+            raise
+
         if t.sl_Status.from_ember_status(status[0]) != t.sl_Status.OK:
             LOGGER.warning(
                 "Set MulticastTableEntry #%s for %s multicast id: %s",
